@@ -600,11 +600,106 @@ def opProg (cfg : Cfg) (toks : List String) : Option (Prog Unit) :=
   | ["clear", _, c] => some (do let _ ← clear (parsePath c); pure ())
   | _ => none
 
+/-- Programs of one-line operations with their result rendered (class only), for `faultset`. -/
+def opProgS (cfg : Cfg) (toks : List String) : Option (Prog String) :=
+  let cls {α : Type} (r : Res α) : String := match r with | .ok _ => "ok" | .error e => errStr e
+  match toks with
+  | ["write", f, c, a, k, d] =>
+    match parseFl f, parseAlgo a, parseKey k, parseB d with
+    | some fl, some al, some key, some data => some (do let r ← write cfg fl (parsePath c) al key data; pure (cls r))
+    | _, _, _, _ => none
+  | ["write_hash", f, c, a, d] =>
+    match parseFl f, parseAlgo a, parseB d with
+    | some fl, some al, some data => some (do let r ← writeHash cfg fl (parsePath c) al data; pure (cls r))
+    | _, _, _ => none
+  | ["remove", _, c, k] | ["index_delete", _, c, k] =>
+    (parseKey k).map (fun key => do let r ← delete cfg (parsePath c) key; pure (cls r))
+  | ["remove_hash", _, c, s] =>
+    (parseSriTok s).map (fun sri => do let r ← removeHash (parsePath c) sri; pure (cls r))
+  | "index_insert" :: _ :: c :: k :: opts =>
+    match parseKey k, parseWriteOpts opts with
+    | some key, some o => some (do let r ← insert cfg (parsePath c) key o; pure (cls r))
+    | _, _ => none
+  | ["remove_fully", _, c, k] =>
+    (parseKey k).map (fun key => do let r ← removeFully cfg (parsePath c) key; pure (cls r))
+  | ["clear", _, c] => some (do let r ← clear (parsePath c); pure (cls r))
+  | ["read", _, c, k] =>
+    (parseKey k).map (fun key => do let r ← read cfg (parsePath c) key; pure (cls r))
+  | ["read_hash", _, c, s] =>
+    (parseSriTok s).map (fun sri => do let r ← readHash cfg (parsePath c) sri; pure (cls r))
+  | ["metadata", _, c, k] | ["index_find", _, c, k] =>
+    (parseKey k).map (fun key => do
+      let r ← find cfg (parsePath c) key
+      pure (match r with | .ok none => "ok none" | .ok (some _) => "ok meta" | .error e => errStr e))
+  | _ => none
+
+/-- `faultset <op …>`: every outcome the model allows for the op when exactly one of its calls
+fails — each call index of the healthy run × each error kind × a few partial-write lengths — as
+`<result class>|<files and links of the cache afterwards>`, de-duplicated.  The real outcome of an
+injected errno must be one of these (that is what carries the fault theorems over to the code). -/
+def faultSet (st : St) (env : Env) (toks : List String) : Option (List String) :=
+  match opProgS (mkCfg st.xx) toks with
+  | none => none
+  | some p =>
+    let healthy := Prog.run env p st.fs
+    let n := healthy.2.2.length
+    let cache := parsePath (toks.getD 2 "c0")
+    let show_ (r : String) (fs : FS) : String :=
+      r ++ "|" ++ ",".intercalate ((dumpEntries fs cache).filter (fun e => !e.startsWith "d:" && e ≠ ""))
+    let outcomes := (List.range n).flatMap (fun i =>
+      let call := healthy.2.2.getD i .now
+      let lens : List Nat := match call with
+        | .writeAt _ _ d | .appendWrite _ d => [0, 1, d.length / 2, d.length - 1, d.length]
+        | _ => [0]
+      [EK.other, EK.notFound, EK.exists].flatMap (fun e =>
+        lens.map (fun sh =>
+          let plan : Nat → Option Prog.Fault := fun j => if j == i then some { e := e, short := sh } else none
+          let r := Prog.runFault env plan p st.fs 0
+          show_ r.1 r.2.1)))
+    some ((show_ healthy.1 healthy.2.1 :: outcomes).eraseDups)
+
+/-- `crashset <op …>`: the files and links of the cache in every state a process kill can leave
+according to the model — on entry to each call of the op, with the in-flight call torn at every
+page-sized (4096) step, every `mkdir` level, every deletion — de-duplicated.  The real tree found
+after a SIGKILL at any system call must be one of these. -/
+def crashSet (st : St) (env : Env) (toks : List String) : Option (List String) :=
+  match opProgS (mkCfg st.xx) toks with
+  | none => none
+  | some p =>
+    let healthy := Prog.run env p st.fs
+    let n := healthy.2.2.length
+    let cache := parsePath (toks.getD 2 "c0")
+    let show_ (fs : FS) : String :=
+      ",".intercalate ((dumpEntries fs cache).filter (fun e => !e.startsWith "d:" && e ≠ ""))
+    let states := (List.range (n + 1)).flatMap (fun i =>
+      let call : Call := healthy.2.2.getD i .now
+      let torn : List Nat := match call with
+        | .writeAt _ _ d | .appendWrite _ d =>
+          ((List.range (d.length / 4096 + 1)).map (· * 4096)) ++ [d.length]
+        | .mkdirP q => List.range (q.length + 1)
+        | .removeTree _ => List.range 64
+        | .copyFile _ _ => [0, 4096, 1000000000]
+        | _ => [0]
+      torn.map (fun t => show_ (Prog.crash env p st.fs i t)))
+    some states.eraseDups
+
 /-- `crash <n> <t> <op …>`: leave the model filesystem in the state a kill on entry to the op's
 `n`-th call (torn at `t`) produces; prints the number of calls of the healthy run. -/
 def stepOrCrash (st : St) (line : String) : St × String :=
   let toks0 := (line.trimAscii.toString.splitOn " ").filter (· ≠ "")
   match toks0 with
+  | "faultset" :: rest =>
+    let nowTok := optVal (rest.map (fun x => if x.startsWith "@" then (x.drop 1).toString else "")) "now"
+    let env : Env := { clock := (nowTok.bind (·.toNat?)).getD 0 }
+    match faultSet st env (rest.filter (fun x => !x.startsWith "@")) with
+    | some outs => (st, "ok " ++ " ;; ".intercalate outs)
+    | none => (st, "err badarg")
+  | "crashset" :: rest =>
+    let nowTok := optVal (rest.map (fun x => if x.startsWith "@" then (x.drop 1).toString else "")) "now"
+    let env : Env := { clock := (nowTok.bind (·.toNat?)).getD 0 }
+    match crashSet st env (rest.filter (fun x => !x.startsWith "@")) with
+    | some outs => (st, "ok " ++ " ;; ".intercalate outs)
+    | none => (st, "err badarg")
   | "crash" :: n :: t :: rest =>
     let nowTok := optVal (rest.map (fun x => if x.startsWith "@" then (x.drop 1).toString else "")) "now"
     let env : Env := { clock := (nowTok.bind (·.toNat?)).getD 0 }
